@@ -59,6 +59,12 @@ def run_real(c):
     c.cov["states"] += stats["distinct"]
     c.cov["transitions"] += stats["generated"]
     for tr, m, v in zip(traces, meta, verdicts):
+        # "stop() may be called more than once and on an observer whose watched root has already disappeared"
+        bad = [e for e in tr if e.get("e") == "ret" and e.get("op") == "stop" and e.get("ok") is False]
+        if bad:
+            rp = dict(m, trace=tr, trace_spec=["InotifyFdTrace", "InotifyFdTrace.cfg"])
+            c.violation("P_C06_StopDoesNotRaise", f"stop() raised {bad[0].get('exc')} with the real {m['params']['observer']} emitter: "
+                                                  f"{m['params']['threads']}", rp)
         if v["accepted"]:
             continue
         for clause in v["viol"]:
